@@ -309,6 +309,16 @@ func cmdCheck(args []string) {
 	for _, k := range base.Unclaimed {
 		unclaimed[k] = true
 	}
+	// functions whose preconditions were already too weak for some obligation of a kind at baseline time: a new
+	// refuted obligation of that kind in edited code is the same missing precondition, not a finding
+	kindUnclaimed := map[string]bool{}
+	for _, k := range base.Unclaimed {
+		if i := strings.Index(k, ":"); i > 0 {
+			if j := strings.Index(k[i+1:], ":"); j >= 0 {
+				kindUnclaimed[k[:i+1+j]] = true // "<relpkg>:<Func>/<kind>"
+			}
+		}
+	}
 	present := map[string]bool{}
 	failing := map[string]*obRec{} // key -> first failing instance
 	newSafety := map[string]bool{} // refuted implicit obligations that did not exist at baseline time (edited code)
@@ -370,7 +380,7 @@ func cmdCheck(args []string) {
 	for _, u := range unsupported {
 		// a function that was verified at baseline time and is now outside the supported subset
 		for _, bf := range base.Functions {
-			if strings.HasPrefix(u, bf+": ") && strings.Contains(u, "stale contract") {
+			if strings.HasPrefix(u, bf+": ") && strings.Contains(u, "stale contract") && (strings.Contains(u, "undefined:") || strings.Contains(u, "undeclared") || strings.Contains(u, "binds to no loop")) {
 				// the contract mentions a name (local, parameter, field, loop) the current source no longer
 				// declares: the proof cannot be rebuilt, which says nothing about the property. Undecided, not a violation.
 				stale = append(stale, u)
@@ -403,6 +413,9 @@ func cmdCheck(args []string) {
 	}
 	violations := 0
 	replayDir := filepath.Join(*root, "replays", *prop)
+	if d := os.Getenv("VC_EVIDENCE_DIR"); d != "" {
+		replayDir = filepath.Join(d, "replays", *prop)
+	}
 	os.MkdirAll(replayDir, 0o755)
 	var knownHit []string
 	var failKeys []string
@@ -415,11 +428,12 @@ func cmdCheck(args []string) {
 		if kf := matchKnown(known, *prop, k); kf != nil {
 			fmt.Printf("KNOWN-FINDING: property=%s %s [%s]\n", *prop, kf.What, k)
 			knownHit = append(knownHit, k)
+			obligN-- // a recorded finding is reported on its own, not counted among the obligations of the proof
 			continue
 		}
 		rp := filepath.Join(replayDir, sanitize(k)+".json")
 		reproduced := P.writeReplay(rp, *prop, r.o, r.vc, claimed[k], *repo)
-		if newSafety[k] && !reproduced {
+		if newSafety[k] && (!reproduced || kindUnclaimed[r.fn+"/"+r.o.Kind]) {
 			// an implicit obligation of edited code, refuted only in the abstract (typically a helper precondition
 			// that no contract states yet): without a failing input on the real code it is undecided, not a violation
 			unclaimedNow = append(unclaimedNow, k+" (new, refuted in the abstract, no failing input)")
@@ -468,6 +482,12 @@ func cmdCheck(args []string) {
 		trusted = append(trusted, "assumed library contract: "+k)
 	}
 	sort.Strings(trusted)
+	var invs []string
+	for k := range P.assumedInvs {
+		invs = append(invs, "data-structure invariant assumed at a call site outside the owning package (unexported state; proved as post of every method under contract): "+k)
+	}
+	sort.Strings(invs)
+	trusted = append(trusted, invs...)
 	trusted = append([]string{"vc generator (/verif/vc)", "go/ssa + go/types (x/tools v0.29.0) as the semantics of the source", "SMT solvers z3 4.8.12 / z3 5.1.0 / cvc5 1.0"}, trusted...)
 	for _, c := range P.contractList {
 		if c.Trusted {
@@ -528,8 +548,12 @@ func cmdCheck(args []string) {
 		"wall_s":      time.Since(t0).Seconds(),
 		"violations":  violations,
 	}
-	os.MkdirAll(filepath.Join(*root, "evidence"), 0o755)
-	writeJSON(filepath.Join(*root, "evidence", *prop+".json"), ev)
+	evDir := filepath.Join(*root, "evidence")
+	if d := os.Getenv("VC_EVIDENCE_DIR"); d != "" {
+		evDir = d // selftest / seeded-change runs against scratch copies must not overwrite the real evidence
+	}
+	os.MkdirAll(evDir, 0o755)
+	writeJSON(filepath.Join(evDir, *prop+".json"), ev)
 	fmt.Printf("property %s tier %s: %d/%d obligations discharged, %d functions, %d unclaimed, %d known findings, %d violations (%.1fs)\n",
 		*prop, *tier, dischargedN+frameCount-len(frameFail), obligN+frameCount, len(jobs), len(unclaimedNow), len(knownHit), violations, time.Since(t0).Seconds())
 	if obligN == 0 {
